@@ -26,6 +26,21 @@ static const ccfg_t CFG[] = {
 	{ "ES256", JWT_ALG_ES256, "p256a", 0 },
 };
 #define NCFG ((int)(sizeof CFG / sizeof *CFG))
+/* mixed runs: the threads use different algorithms and keys (anything shared between two calls in flight shows as a wrong
+ * key or algorithm in one of them); run index NCFG + m, thread t uses configuration MIX[m][t % 2] */
+static const int MIX[][2] = { { 0, 1 }, { 1, 3 }, { 2, 0 } };
+#define NMIX ((int)(sizeof MIX / sizeof *MIX))
+static int thread_cfg(int run, int t) { return run < NCFG ? run : MIX[run - NCFG][t % 2]; }
+static const char *run_name(int run)
+{
+	static char b[4][48];
+	static int k;
+	if (run < NCFG)
+		return CFG[run].name;
+	char *r = b[k++ % 4];
+	snprintf(r, 48, "%s+%s", CFG[MIX[run - NCFG][0]].name, CFG[MIX[run - NCFG][1]].name);
+	return r;
+}
 
 static jwk_set_t *ring[NCFG];          /* shared, read-only: [0] private/symmetric, [1] public */
 static char *FIXED_GOOD[NCFG], *FIXED_BAD[NCFG];
@@ -144,12 +159,14 @@ static int warm_ring;
 static void run_schedule(int cfg, int nthr, const int *prefix, int plen, exec_t *x)
 {
 	rc_rng_reseed(515151);
-	fresh_ring(cfg, warm_ring);
+	fresh_ring(thread_cfg(cfg, 0), warm_ring);
+	if (thread_cfg(cfg, 1) != thread_cfg(cfg, 0))
+		fresh_ring(thread_cfg(cfg, 1), warm_ring);
 	sched_body_t bodies[SCHED_MAXT];
 	void *args[SCHED_MAXT];
 	for (int t = 0; t < nthr; t++) {
 		memset(&x->obs[t], 0, sizeof x->obs[t]);
-		x->obs[t].cfg = cfg;
+		x->obs[t].cfg = thread_cfg(cfg, t);
 		x->obs[t].tid = t;
 		bodies[t] = body;
 		args[t] = &x->obs[t];
@@ -179,9 +196,9 @@ static void check_exec(int cfg, int nthr, const exec_t *x)
 	if (x->n > n_points_max)
 		n_points_max = x->n;
 	if (x->rc == -1)
-		vf_violation("harness|prefix-divergence", "%s: a replayed prefix choice was out of range (schedule %s)", CFG[cfg].name, sched_str(x));
+		vf_violation("harness|prefix-divergence", "%s: a replayed prefix choice was out of range (schedule %s)", run_name(cfg), sched_str(x));
 	if (x->rc == -2)
-		vf_violation("harness|too-many-points", "%s: more than %d scheduling points", CFG[cfg].name, MAXPTS);
+		vf_violation("harness|too-many-points", "%s: more than %d scheduling points", run_name(cfg), MAXPTS);
 	int switches = 0;
 	for (int i = 1; i < x->n; i++)
 		if (x->pts[i].thread != x->pts[i - 1].thread)
@@ -190,16 +207,17 @@ static void check_exec(int cfg, int nthr, const exec_t *x)
 		n_interleaved++;
 	uint64_t h = 0;
 	for (int t = 0; t < nthr; t++) {
-		const tobs_t *o = &x->obs[t], *s = &SEQ[cfg][t];
-		h = vf_hash_mix(h, vf_hash_mix(o->r_own * 9 + o->r_bad * 3 + o->r_good, CFG[cfg].deterministic ? vf_hash_str(o->tok) : 0));
+		int tc = thread_cfg(cfg, t);
+		const tobs_t *o = &x->obs[t], *s = &SEQ[tc][t];
+		h = vf_hash_mix(h, vf_hash_mix(o->r_own * 9 + o->r_bad * 3 + o->r_good, CFG[tc].deterministic ? vf_hash_str(o->tok) : 0));
 		if (o->gen_failed != s->gen_failed || o->r_own != s->r_own || o->r_bad != s->r_bad || o->r_good != s->r_good || o->flag_after_bad != s->flag_after_bad) {
 			char key[96];
-			snprintf(key, sizeof key, "schedule|%s|verdict-differs", CFG[cfg].name);
+			snprintf(key, sizeof key, "schedule|%s|verdict-differs", run_name(cfg));
 			vf_violation(key, "thread %d: generate-failed=%d verify(own)=%d verify(bad)=%d verify(good)=%d, sequentially %d %d %d %d; schedule (point:choice) %s", t,
 				     o->gen_failed, o->r_own, o->r_bad, o->r_good, s->gen_failed, s->r_own, s->r_bad, s->r_good, sched_str(x));
-		} else if (CFG[cfg].deterministic && o->tok && s->tok && strcmp(o->tok, s->tok)) {
+		} else if (CFG[tc].deterministic && o->tok && s->tok && strcmp(o->tok, s->tok)) {
 			char key[96];
-			snprintf(key, sizeof key, "schedule|%s|token-differs", CFG[cfg].name);
+			snprintf(key, sizeof key, "schedule|%s|token-differs", run_name(cfg));
 			vf_violation(key, "thread %d produced %s, sequentially %s; schedule (point:choice) %s", t, o->tok, s->tok, sched_str(x));
 		}
 	}
@@ -240,7 +258,7 @@ static void explore(int cfg, int nthr, exec_t *x, int plen, int bound)
 
 /* ------------------------------------------------------------------ free-running pass (TSan build) */
 struct frarg {
-	int cfg, tid, iters;
+	int cfg, run, tid, iters;
 	long mismatches;
 };
 static pthread_barrier_t bar;
@@ -250,8 +268,11 @@ static void *free_body(void *p)
 	for (int i = 0; i < a->iters; i++) {
 		/* every second round starts on a keyring nobody has used yet (thread 0 swaps it in between two barriers) */
 		pthread_barrier_wait(&bar);
-		if (a->tid == 0 && i % 2 == 0)
-			fresh_ring(a->cfg, 0);
+		if (a->tid == 0 && i % 2 == 0) {
+			fresh_ring(thread_cfg(a->run, 0), 0);
+			if (thread_cfg(a->run, 1) != thread_cfg(a->run, 0))
+				fresh_ring(thread_cfg(a->run, 1), 0);
+		}
 		pthread_barrier_wait(&bar);
 		tobs_t o = { 0 };
 		o.cfg = a->cfg;
@@ -288,14 +309,14 @@ static void enumerate_free_running(int provider)
 	lj_select_provider(provider);
 	setup();
 	sequential_reference();
-	for (int c = 0; c < NCFG; c++) {
-		if (!vf_case("free-running: 8 threads x %d iterations of the %s body under ThreadSanitizer [%s]", vf_thorough ? 400 : 100, CFG[c].name, lj_provider_name(provider)))
+	for (int c = 0; c < NCFG + NMIX; c++) {
+		if (!vf_case("free-running: 8 threads x %d iterations of the %s body under ThreadSanitizer [%s]", vf_thorough ? 400 : 100, run_name(c), lj_provider_name(provider)))
 			continue;
 		pthread_t th[8];
 		struct frarg a[8];
 		pthread_barrier_init(&bar, NULL, 8);
 		for (int t = 0; t < 8; t++) {
-			a[t] = (struct frarg){ c, t, vf_thorough ? 400 : 100, 0 };
+			a[t] = (struct frarg){ thread_cfg(c, t), c, t, vf_thorough ? 400 : 100, 0 };
 			pthread_create(&th[t], NULL, free_body, &a[t]);
 		}
 		long mism = 0;
@@ -306,7 +327,7 @@ static void enumerate_free_running(int provider)
 		vf_obs(mism);
 		vf_obs(c);
 		if (mism)
-			vf_violation("free-running|result-differs", "%s: %ld iteration(s) gave a token or verdict different from the sequential run", CFG[c].name, mism);
+			vf_violation("free-running|result-differs", "%s: %ld iteration(s) gave a token or verdict different from the sequential run", run_name(c), mism);
 		/* ThreadSanitizer writes its reports to VF_TSAN_LOG.<pid> */
 		const char *lp = getenv("VF_TSAN_LOG");
 		if (lp) {
@@ -329,7 +350,7 @@ static void enumerate_free_running(int provider)
 				}
 				char key[200];
 				snprintf(key, sizeof key, "tsan|data-race|%s", fn);
-				vf_violation(key, "ThreadSanitizer reported a data race while running the %s bodies: %.1500s", CFG[c].name, strstr(txt, "WARNING: ThreadSanitizer"));
+				vf_violation(key, "ThreadSanitizer reported a data race while running the %s bodies: %.1500s", run_name(c), strstr(txt, "WARNING: ThreadSanitizer"));
 				/* start a fresh log for the next configuration */
 				FILE *f = fopen(path, "w");
 				if (f)
@@ -364,10 +385,10 @@ static void enumerate(void)
 	vf_alloc_hook = alloc_point;
 	vf_time_hook = time_point;
 	rc_alloc_hook = time_point;
-	for (int c = 0; c < NCFG; c++) {
+	for (int c = 0; c < NCFG + NMIX; c++) {
 		int maxthr = (vf_thorough && c == 0) ? 3 : 2;
 		for (int nthr = 2; nthr <= maxthr; nthr++) {
-			int bound = vf_thorough && nthr == 2 ? 2 : 1;
+			int bound = vf_thorough && nthr == 2 && c <= NCFG ? 2 : 1;
 			/* roots: which thread starts is a free choice (no thread is running yet).  For every root the execution without
 			 * further deviation defines the top-level branches; every shard recomputes it (deterministic, a few ms). */
 			for (int rw = 0; rw < 2 * nthr; rw++) {
@@ -376,14 +397,14 @@ static void enumerate(void)
 				int rootpfx[1] = { root };
 				exec_t *x0 = malloc(sizeof *x0);
 				run_schedule(c, nthr, rootpfx, 1, x0);
-				if (vf_case("%s [%s] %d threads on a %s keyring, thread %d starts: schedule without preemptions (%d scheduling points)", CFG[c].name,
+				if (vf_case("%s [%s] %d threads on a %s keyring, thread %d starts: schedule without preemptions (%d scheduling points)", run_name(c),
 					    lj_provider_name(provider), nthr, warm_ring ? "used" : "fresh", root, x0->n)) {
 					check_exec(c, nthr, x0);
 					/* determinism: the same schedule twice gives the same points and observations */
 					exec_t *x1 = malloc(sizeof *x1);
 					run_schedule(c, nthr, rootpfx, 1, x1);
-					if (x1->n != x0->n || (CFG[c].deterministic && x0->obs[0].tok && x1->obs[0].tok && strcmp(x0->obs[0].tok, x1->obs[0].tok)))
-						vf_violation("harness|nondeterministic-schedule", "%s: two runs of the same schedule differ (%d vs %d points)", CFG[c].name, x0->n, x1->n);
+					if (x1->n != x0->n || (CFG[thread_cfg(c, 0)].deterministic && x0->obs[0].tok && x1->obs[0].tok && strcmp(x0->obs[0].tok, x1->obs[0].tok)))
+						vf_violation("harness|nondeterministic-schedule", "%s: two runs of the same schedule differ (%d vs %d points)", run_name(c), x0->n, x1->n);
 					for (int t = 0; t < nthr; t++)
 						obs_free(&x1->obs[t]);
 					free(x1);
@@ -395,7 +416,7 @@ static void enumerate(void)
 						continue;
 					for (int alt = 1; alt < x0->pts[i].n_enabled; alt++) {
 						if (!vf_case("%s [%s] %d threads on a %s keyring, thread %d starts, bound %d: first deviation at point %d (choice %d), then every schedule within the bound",
-							     CFG[c].name, lj_provider_name(provider), nthr, warm_ring ? "used" : "fresh", root, bound, i, alt))
+							     run_name(c), lj_provider_name(provider), nthr, warm_ring ? "used" : "fresh", root, bound, i, alt))
 							continue;
 						int *pfx = malloc(sizeof(int) * (i + 1));
 						memcpy(pfx, x0->ch, sizeof(int) * i);
